@@ -310,7 +310,21 @@ def discharge_intern(repo, res, rule="INTERN"):
             for n in A.walk(f.body):
                 if n["k"] == "Call" and n["func"]["k"] == "Path" and n["func"]["path"].split("::")[-1] == ty:
                     sites.append(q)
-        res.check(bool(sites) and set(sites) <= home, rule, f"{rule}:ctor:{ty}", f"{ty}(..) constructed in {sorted(set(sites))}", "")
+        # a constructor helper in the id type's own impl (`InpId::from_index`) is as good as the pool's methods when only they call it
+        pools = {h.rsplit("::", 1)[0] for h in home}
+        extra = set(sites) - home
+        for q in sorted(extra):
+            f = repo.fns[q]
+            if f.self_ty and f.self_ty.split("<")[0] == ty:
+                callers = [g.qname for g in repo.fns.values() for c in A.walk(g.body)
+                           if c["k"] == "Call" and c["func"]["k"] == "Path" and c["func"]["path"].split("::")[-2:] == [ty, f.name]]
+                callers += [g.qname for g in repo.fns.values() if g.self_ty and g.self_ty.split("<")[0] == ty for c in A.walk(g.body)
+                            if c["k"] == "Call" and c["func"]["k"] == "Path" and c["func"]["path"].split("::")[-2:] == ["Self", f.name]]
+                if callers and all(any(cq.startswith(pl + "::") for pl in pools) for cq in callers):
+                    extra.discard(q)
+        # pool methods added beside the recorded ones are the pool's own business too
+        extra = {q for q in extra if not any(q.startswith(pl + "::") for pl in pools)}
+        res.check(bool(sites) and not extra, rule, f"{rule}:ctor:{ty}", f"{ty}(..) constructed in {sorted(set(sites))}" + ("" if not extra else f": {sorted(extra)} make ids outside the pool that owns them (an id that indexes nothing)"), "")
     # pools only grow: no removal on their store
     for q, f in repo.fns.items():
         if "InternPool::" in q:
